@@ -315,6 +315,11 @@ def _reshape_feeding_matmul_changes_matrix_dims(case):
                 k = 1 if (len(src) == 1 or len(dst) == 1) else 2
                 if list(src[-k:]) != list(dst[-k:]) or len(src) == 1 or len(dst) == 1:
                     return True
+                # same defect, other face: the input Reshape only regroups batch dims, but the other operand has batch dims of its
+                # own, so dropping the Reshape changes which batch dims are aligned by broadcasting ([3,1,3] vs [3,1,1,3] against [3,3,3,3])
+                other = sh.get(n.input[1 - pos])
+                if list(src[:-k]) != list(dst[:-k]) and (other is None or len(other) > 2):
+                    return True
     return False
 
 
